@@ -449,6 +449,38 @@ func runC08Values(c C08Case) (st Stats, err error) {
 		}
 		st.Class("values:" + tname + "." + m.Name)
 	}
+	// the receiver ITSELF as the `any` argument of each of these methods (native, alias, pointer), on a fresh
+	// mutex-enabled stack: a value like any other - the call returns normally
+	if !isCond {
+		for _, call := range c.Calls {
+			m, ok := findMethod(ms, call.Method)
+			if !ok || !anyParamMethod(m) {
+				continue
+			}
+			for fi := 0; fi < 3; fi++ {
+				self := newStackOfKind(c.Kind, 0).Push("s1", 2).SetMutex()
+				var form any = self
+				switch fi {
+				case 1:
+					form = MyStack(self)
+				case 2:
+					form = &self
+				}
+				args, _ := synthArgs(m.Type, true, &synthCtx{Len: 2, Variant: call.Variant | 1})
+				for ai := range args {
+					if args[ai].Type() == tAny {
+						rv := reflect.New(tAny).Elem()
+						rv.Set(reflect.ValueOf(form))
+						args[ai] = rv
+					}
+				}
+				if _, p := callMethod(&self, m, args); p != "" {
+					return st, violf("Stack."+m.Name+"/self-as-argument", "Stack.%s(the receiver itself, form %d) on a mutex-enabled stack did not return normally: %s", m.Name, fi, p)
+				}
+			}
+			st.Class("self-as-argument")
+		}
+	}
 	if !isCond && sp.IsInit() && !sp.IsReadOnly() {
 		if p := followUpMutating(*sp); p != "" {
 			return st, violf("Stack/followup-mutators", "the stack is unusable after the calls: %s", p)
